@@ -23,6 +23,8 @@ from ..report import VERIF, Context
 from ..statusmodel import FLAGS, extract
 
 PROPERTY = "C01"
+TECHNIQUE = "static analysis: extraction of the status table from the AST and comparison with the documented graph (SVG / markdown), exhaustive finite-domain abstract evaluation of the pure decision functions over the complete single-step space, validate-dominates-write on the CFG of each backend, who-may-write / who-may-call rules, sibling agreement on persisted columns"
+LEVEL_TEXT = "Every single step (status x requested status x owner x requester: 1890 cases) decided exactly from the source of the pure status functions against the documented graph; backends decided structurally (validation dominates the only write). Multi-step histories follow by induction on the step relation; interleavings are C02."
 SPEC = VERIF / "spec" / "lifecycle.json"
 STATUS_COLUMNS = {"status", "status_runner_id", "status_timestamp"}
 MEM_RECORD_ATTRS = {"invocation_status_record", "status_index"}
